@@ -276,3 +276,11 @@ func IDs() []string {
 	sort.Strings(l)
 	return l
 }
+
+// ErrString renders an error ("" for nil).
+func ErrString(err error) string {
+	if err == nil {
+		return ""
+	}
+	return err.Error()
+}
